@@ -35,6 +35,18 @@ def bounds(tier):
 # ---------------------------------------------------------------------------------------------
 # objects
 
+def empty_dom_ir(T, vals):
+    """S -> X ; X -> z(v) | a Y ; Y -> c X | d, with v over an EMPTY domain: in the first iterate the only
+    contribution to X is a structurally-zero scalar (a sum over nothing); X becomes non-zero one iteration later."""
+    ir = {'start': 'S', 'nl': {'Z': 0}, 'term': {'a': (), 'c': (), 'd': (), 'z': ('Z',)}, 'nt': {'S': (), 'X': (), 'Y': ()},
+          'rules': [('S', (), (), (('X', ()),)), ('X', ('Z',), (), (('z', (0,)),)), ('X', (), (), (('a', ()), ('Y', ()))),
+                    ('Y', (), (), (('c', ()), ('X', ()))), ('Y', (), (), (('d', ()),))]}
+    w = IR.generic_weights(ir, values=vals)
+    w['z'] = []
+    ir['w'] = w
+    return ir
+
+
 def obj_specs():
     T = IR.recursive_templates()
     q = Fraction(1, 4)
@@ -63,6 +75,7 @@ def obj_specs():
         ('late-first-edge/viterbi', with_w('late-first-edge', 1, vals), 'viterbi', False),
         ('diag-growth/real/grad', with_w('diag-growth', 2, vals), 'real', True),
         ('quad-ext/log/grad', with_w('quad-ext', 2, vals), 'log', True),        # start symbol of arity 1: start assignments can be out of range
+        ('mutual+empty-domain/real', empty_dom_ir(T, vals), 'real', False),
     ]
 
 
